@@ -43,6 +43,8 @@ package proxy
 //                               the pool has a timeout
 //   C10.timeout-not-408         the last attempt ran into the pool timeout, but the client does not get
 //                               result "timeout" with status 408
+//   C10.spurious-cancel         the context handed to the transport is cancelled although the client did not
+//                               cancel and no time-out expired
 //   C10.cb-shortcircuit-status     result shortCircuited without a 503 response
 //   C10.cb-shortcircuit-transport  result shortCircuited although the transport was called
 //   C10.cb-shortcircuit-while-closed  request short-circuited although "one record per client request"
@@ -83,6 +85,7 @@ import (
 	"io"
 	"math"
 	"net/http"
+	"os"
 	"runtime"
 	"strings"
 	"testing"
@@ -138,6 +141,7 @@ type c10Scenario struct {
 	TimeoutUs    int64       `json:"timeout_us"`
 	FailureCodes []int       `json:"failure_codes"`
 	Clients      []c10Client `json:"clients"`
+	Net          bool        `json:"net"` // variant: real http.Transport over simnet against a scripted backend server
 }
 
 func c10InCodes(codes []int, s int) bool {
@@ -187,9 +191,20 @@ func c10Gen(rng *sim.Rand, tier string) interface{} {
 		}
 	}
 
-	sc.CB.On = rng.Bool(0.4)
+	sc.Net = rng.Bool(0.08)
+	switch os.Getenv("C10_ONLY") { // development knob: restrict the search to one variant
+	case "net":
+		sc.Net = true
+	case "stub":
+		sc.Net = false
+	}
+	sc.CB.On = rng.Bool(0.4) && !sc.Net
 	nClients := rng.Pick(1, 1, 2, 3)
 	total := rng.Range(1, 8)
+	if sc.Net {
+		nClients = rng.Pick(1, 1, 2)
+		total = rng.Range(1, 4)
+	}
 	if sc.CB.On {
 		total = rng.Range(4, 14)
 		if rng.Bool(0.6) {
@@ -209,6 +224,9 @@ func c10Gen(rng *sim.Rand, tier string) interface{} {
 	}
 	scenPf := rng.Pick(20, 50, 80, 100)
 	cancelPct := rng.Pick(0, 20, 40, 70)
+	if sc.Net {
+		cancelPct = 0
+	}
 	streamPct := rng.Pick(0, 0, 15, 40)
 	dense := rng.Bool(0.5)
 
@@ -348,6 +366,75 @@ func (b *c10Breaker) record(failed bool) {
 
 // ---- executor -------------------------------------------------------------------
 
+// c10Build creates the reference parameters, the policies (through the
+// production constructor: defaults + validation) and the pool spec.
+func c10Build(r *sim.Run, sc *c10Scenario) (*c10Ref, map[string]resilience.Policy, *ServerPoolSpec, bool) {
+	rt, cb := sc.Retry, sc.CB
+	// --- policies through the production constructor (defaults + validation)
+	ref := &c10Ref{retryOn: rt.On, maxAttempts: 1, timeout: time.Duration(sc.TimeoutUs) * time.Microsecond}
+	policies := map[string]resilience.Policy{}
+	spec := &ServerPoolSpec{Servers: []*Server{{URL: "http://10.1.0.1:8080"}}, FailureCodes: append([]int(nil), sc.FailureCodes...)}
+	if sc.TimeoutUs > 0 {
+		spec.Timeout = fmt.Sprintf("%dus", sc.TimeoutUs)
+	}
+	if rt.On {
+		raw := map[string]interface{}{"kind": "Retry", "name": "c10retry"}
+		ref.maxAttempts, ref.wait = 3, 500*time.Millisecond // documented defaults
+		if rt.MaxAttempts > 0 {
+			raw["maxAttempts"] = rt.MaxAttempts
+			ref.maxAttempts = rt.MaxAttempts
+		} else {
+			r.Probe("c10.retry.default_max_attempts")
+		}
+		if rt.WaitMs > 0 {
+			raw["waitDuration"] = fmt.Sprintf("%dms", rt.WaitMs)
+			ref.wait = time.Duration(rt.WaitMs) * time.Millisecond
+		} else {
+			r.Probe("c10.retry.default_wait")
+		}
+		if rt.BackOff != "" {
+			raw["backOffPolicy"] = rt.BackOff
+		}
+		switch rt.BackOff {
+		case "", "random":
+		case "exponential":
+			ref.exponential = true
+		default:
+			return nil, nil, nil, false // other spellings are not part of the generated space
+		}
+		if rt.RFPct > 0 {
+			raw["randomizationFactor"] = float64(rt.RFPct) / 100
+			ref.rf = float64(rt.RFPct) / 100
+		}
+		p, err := resilience.NewPolicy(raw)
+		if err != nil {
+			r.Violate("C10.other", "retry policy %v rejected: %v", raw, err)
+			return nil, nil, nil, false
+		}
+		policies["c10retry"] = p
+		spec.RetryPolicy = "c10retry"
+	}
+	if cb.On {
+		raw := map[string]interface{}{"kind": "CircuitBreaker", "name": "c10cb", "slidingWindowType": "COUNT_BASED",
+			"failureRateThreshold": cb.FailPct, "slowCallRateThreshold": 100, "slidingWindowSize": cb.Window,
+			"minimumNumberOfCalls": cb.MinCalls, "permittedNumberOfCallsInHalfOpenState": 1,
+			"slowCallDurationThreshold": "24h", "waitDurationInOpenState": "24h"}
+		p, err := resilience.NewPolicy(raw)
+		if err != nil {
+			r.Violate("C10.other", "circuit breaker policy %v rejected: %v", raw, err)
+			return nil, nil, nil, false
+		}
+		policies["c10cb"] = p
+		spec.CircuitBreakerPolicy = "c10cb"
+	}
+	if err := spec.Validate(); err != nil {
+		return nil, nil, nil, false
+	}
+
+	return ref, policies, spec, true
+}
+
+
 type c10Att struct {
 	entry, end time.Duration
 	kind       string // resp | err
@@ -392,64 +479,12 @@ func c10Exec(r *sim.Run, sci interface{}) {
 		return
 	}
 
-	// --- policies through the production constructor (defaults + validation)
-	ref := &c10Ref{retryOn: rt.On, maxAttempts: 1, timeout: time.Duration(sc.TimeoutUs) * time.Microsecond}
-	policies := map[string]resilience.Policy{}
-	spec := &ServerPoolSpec{Servers: []*Server{{URL: "http://10.1.0.1:8080"}}, FailureCodes: append([]int(nil), sc.FailureCodes...)}
-	if sc.TimeoutUs > 0 {
-		spec.Timeout = fmt.Sprintf("%dus", sc.TimeoutUs)
+	if sc.Net {
+		c10ExecNet(r, sc)
+		return
 	}
-	if rt.On {
-		raw := map[string]interface{}{"kind": "Retry", "name": "c10retry"}
-		ref.maxAttempts, ref.wait = 3, 500*time.Millisecond // documented defaults
-		if rt.MaxAttempts > 0 {
-			raw["maxAttempts"] = rt.MaxAttempts
-			ref.maxAttempts = rt.MaxAttempts
-		} else {
-			r.Probe("c10.retry.default_max_attempts")
-		}
-		if rt.WaitMs > 0 {
-			raw["waitDuration"] = fmt.Sprintf("%dms", rt.WaitMs)
-			ref.wait = time.Duration(rt.WaitMs) * time.Millisecond
-		} else {
-			r.Probe("c10.retry.default_wait")
-		}
-		if rt.BackOff != "" {
-			raw["backOffPolicy"] = rt.BackOff
-		}
-		switch rt.BackOff {
-		case "", "random":
-		case "exponential":
-			ref.exponential = true
-		default:
-			return // other spellings are not part of the generated space
-		}
-		if rt.RFPct > 0 {
-			raw["randomizationFactor"] = float64(rt.RFPct) / 100
-			ref.rf = float64(rt.RFPct) / 100
-		}
-		p, err := resilience.NewPolicy(raw)
-		if err != nil {
-			r.Violate("C10.other", "retry policy %v rejected: %v", raw, err)
-			return
-		}
-		policies["c10retry"] = p
-		spec.RetryPolicy = "c10retry"
-	}
-	if cb.On {
-		raw := map[string]interface{}{"kind": "CircuitBreaker", "name": "c10cb", "slidingWindowType": "COUNT_BASED",
-			"failureRateThreshold": cb.FailPct, "slowCallRateThreshold": 100, "slidingWindowSize": cb.Window,
-			"minimumNumberOfCalls": cb.MinCalls, "permittedNumberOfCallsInHalfOpenState": 1,
-			"slowCallDurationThreshold": "24h", "waitDurationInOpenState": "24h"}
-		p, err := resilience.NewPolicy(raw)
-		if err != nil {
-			r.Violate("C10.other", "circuit breaker policy %v rejected: %v", raw, err)
-			return
-		}
-		policies["c10cb"] = p
-		spec.CircuitBreakerPolicy = "c10cb"
-	}
-	if err := spec.Validate(); err != nil {
+	ref, policies, spec, ok := c10Build(r, sc)
+	if !ok {
 		return
 	}
 
@@ -513,12 +548,12 @@ func c10Exec(r *sim.Run, sci interface{}) {
 				r.Violate("C10.stream-resent", "request %s has a stream body and reached the transport %d times\n%s\nhistory: %s", st.name, idx+1, describe(), history())
 			case idx >= maxA:
 				r.Violate("C10.too-many-attempts", "request %s: attempt %d exceeds maxAttempts=%d (retry policy configured: %v)\n%s\nhistory: %s", st.name, idx+1, maxA, rt.On, describe(), history())
-			case st.cancelled && st.cancelAt < lower:
-				r.Violate("C10.attempt-after-cancel", "request %s: client cancelled at %v; attempt %d had ended at %v and the back-off cannot end before %v, yet attempt %d was started (reached the transport at %v)\n%s\nhistory: %s",
-					st.name, st.cancelAt, idx, prev.end, lower, idx+1, att.entry, describe(), history())
 			case att.entry-prev.end < mw:
 				r.Violate("C10.backoff-too-short", "request %s: attempt %d ended at %v, attempt %d reached the transport at %v: waited %v, documented minimum %v\n%s\nhistory: %s",
 					st.name, idx, prev.end, idx+1, att.entry, att.entry-prev.end, mw, describe(), history())
+			case st.cancelled && st.cancelAt < lower:
+				r.Violate("C10.attempt-after-cancel", "request %s: client cancelled at %v; attempt %d had ended at %v and the back-off cannot end before %v, yet attempt %d was started (reached the transport at %v)\n%s\nhistory: %s",
+					st.name, st.cancelAt, idx, prev.end, lower, idx+1, att.entry, describe(), history())
 			}
 			if idx >= 2 && ref.exponential {
 				sawExp3 = true
@@ -587,6 +622,9 @@ func c10Exec(r *sim.Run, sci interface{}) {
 				r.Violate("C10.timeout-premature", "request %s attempt %d: context reported DeadlineExceeded at %v; the attempt cannot have started before %v and the pool timeout is %v\n%s\nhistory: %s",
 					st.name, idx+1, woke, lower, ref.timeout, describe(), history())
 			}
+		}
+		if ctx.Err() == stdcontext.Canceled && !st.cancelled && !r.Violated() {
+			r.Violate("C10.spurious-cancel", "request %s attempt %d: the context handed to the transport is cancelled at %v although the client never cancelled and no time-out expired\n%s\nhistory: %s", st.name, idx+1, r.Now(), describe(), history())
 		}
 		att.end = r.Now()
 		st.inAttempt = false
